@@ -2,7 +2,7 @@ use crate::rt::execution;
 use crate::rt::object::Operation;
 use crate::rt::vv::VersionVec;
 
-use std::{any::Any, collections::HashMap, fmt, ops};
+use std::{any::Any, collections::BTreeMap, fmt, ops};
 
 use super::Location;
 pub(crate) struct Thread {
@@ -90,9 +90,12 @@ pub(crate) enum State {
     Terminated,
 }
 
-type LocalMap = HashMap<LocalKeyId, LocalValue>;
+// Ordered: the destructors of a thread's locals run in the order of this map,
+// and they may perform loom operations. A `HashMap` iterates in a different
+// order in every iteration, which makes the execution nondeterministic.
+type LocalMap = BTreeMap<LocalKeyId, LocalValue>;
 
-#[derive(Eq, PartialEq, Hash, Copy, Clone)]
+#[derive(Eq, PartialEq, Ord, PartialOrd, Hash, Copy, Clone)]
 struct LocalKeyId(usize);
 
 struct LocalValue(Option<Box<dyn Any>>);
@@ -112,7 +115,7 @@ impl Thread {
             dpor_vv: VersionVec::new(),
             last_yield: None,
             yield_count: 0,
-            locals: HashMap::new(),
+            locals: BTreeMap::new(),
         }
     }
 
